@@ -33,6 +33,7 @@ pub enum Flavor {
     Logic,
     Bit,
     Ea,
+    Flow,
     All,
 }
 impl Flavor {
@@ -43,6 +44,7 @@ impl Flavor {
             Flavor::Logic => "logic",
             Flavor::Bit => "bit",
             Flavor::Ea => "ea",
+            Flavor::Flow => "flow",
             Flavor::All => "all",
         }
     }
@@ -53,6 +55,7 @@ impl Flavor {
             "logic" => Flavor::Logic,
             "bit" => Flavor::Bit,
             "ea" => Flavor::Ea,
+            "flow" => Flavor::Flow,
             _ => Flavor::All,
         }
     }
@@ -64,6 +67,7 @@ impl Flavor {
             Flavor::Logic => [1, 2, 1, 9, 1, 2],
             Flavor::Bit => [1, 2, 1, 1, 9, 2],
             Flavor::Ea => [1, 8, 1, 1, 4, 4],
+            Flavor::Flow => [1, 2, 2, 1, 1, 9],
             Flavor::All => [2, 4, 3, 3, 3, 3],
         }
     }
